@@ -387,6 +387,7 @@ func runC07(c *Ctx) {
 		}
 		c.verdict(c.fnKey(f), f.Pos(), good, "FetchedSize re-read from the blob before every marshal", "state file reports a stale fetched size")
 	}
+	runC07extra(c, rd, whp, opqDir)
 	c.assume("overlayfs interprets a 0/0 character device as a whiteout and the configured xattr as opaque marker")
 }
 
@@ -566,4 +567,242 @@ func runC02(c *Ctx) {
 		c.verdict(c.fnKey(lit)+":neighbour-id", lit.Pos(), good, "pre-read chunks are cached under their own file's id", "pre-read chunks of neighbouring files are cached under the opened file's id")
 	}
 	c.assume("metadata.File.ChunkEntryForOffset describes the chunk containing the offset (both stores; see C05)")
+}
+
+func runC07extra(c *Ctx, rd *ssa.Function, whp, opqDir string) {
+	const lp = "fs/layer"
+
+	// ---------- C07.f ----------
+	c.clause("C07.f", "T9", "the name of a synthesised whiteout device, and the name tested against the real entries, is the marker's name with exactly the whiteout prefix removed", 2)
+	if rd != nil {
+		// range key of the whiteouts map
+		isKey := func(v ssa.Value) bool {
+			ex, ok := stripConv(v).(*ssa.Extract)
+			if !ok || ex.Index != 1 {
+				return false
+			}
+			nx, ok := ex.Tuple.(*ssa.Next)
+			if !ok {
+				return false
+			}
+			rg, ok := nx.Iter.(*ssa.Range)
+			return ok && addrKey(rg.X) == "whiteouts"
+		}
+		isStrip := func(v ssa.Value) bool {
+			v = stripConv(v)
+			switch x := v.(type) {
+			case *ssa.Slice:
+				if !isKey(x.X) || x.High != nil || x.Low == nil {
+					return false
+				}
+				k, ok := constInt(x.Low)
+				return ok && int(k) == len(whp)
+			case *ssa.Call:
+				id := calleeID(x)
+				if id == "strings.TrimPrefix" && isKey(x.Call.Args[0]) {
+					s, ok := constString(x.Call.Args[1])
+					return ok && s == whp
+				}
+			case *ssa.Extract:
+				if call, ok := x.Tuple.(*ssa.Call); ok && calleeID(call) == "strings.CutPrefix" && x.Index == 0 && isKey(call.Call.Args[0]) {
+					s, ok := constString(call.Call.Args[1])
+					return ok && s == whp
+				}
+			}
+			return false
+		}
+		eachInstr(rd, func(i ssa.Instruction) {
+			switch x := i.(type) {
+			case *ssa.Lookup:
+				if addrKey(x.X) == "normalEnts" {
+					c.verdict(c.fnKey(rd)+":replaced-test-name", x.Pos(), isStrip(x.Index), "tested name = marker name minus the prefix", "the name tested against the real entries is not the whiteout marker's name with exactly the prefix "+whp+" removed")
+				}
+			case *ssa.Store:
+				fa, ok := x.Addr.(*ssa.FieldAddr)
+				if !ok || fieldName(fa) != "Mode" || typeQName(fa.X.Type()) != "github.com/hanwen/go-fuse/v2/fuse.DirEntry" {
+					return
+				}
+				if k, ok := constInt(x.Val); !ok || k != 0x2000 {
+					return
+				}
+				found := false
+				for _, r := range *fa.X.Referrers() {
+					nfa, ok := r.(*ssa.FieldAddr)
+					if !ok || fieldName(nfa) != "Name" {
+						continue
+					}
+					for _, rr := range *nfa.Referrers() {
+						if st, ok := rr.(*ssa.Store); ok && st.Addr == ssa.Value(nfa) {
+							found = true
+							c.verdict(c.fnKey(rd)+":whiteout-device-name", st.Pos(), isStrip(st.Val), "device name = marker name minus the prefix", "the whiteout device is not named after the marker with exactly the prefix "+whp+" removed (e.g. a character-set trim mangles names starting with '.', 'w' or 'h')")
+						}
+					}
+				}
+				if !found {
+					c.unk(c.fnKey(rd)+":whiteout-device-name", x.Pos(), "name of the synthesised whiteout device not found")
+				}
+			}
+		})
+	}
+
+	// ---------- C07.g ----------
+	c.clause("C07.g", "T1", "isOpaque answers from the metadata store: true only on the success edge of GetChild(id, opaque marker), false only on its failure edge", 2)
+	if f := c.mustFn(lp, "(*node).isOpaque"); f != nil {
+		gets := callsIn(f, func(id string, ci ssa.CallInstruction) bool {
+			if !ci.Common().IsInvoke() || ci.Common().Method.Name() != "GetChild" {
+				return false
+			}
+			s, ok := constString(ci.Common().Args[1])
+			return ok && s == opqDir
+		})
+		var se, fe []edge
+		for _, g := range gets {
+			se = append(se, successEdges(f, g)...)
+			for _, e := range errResults(g) {
+				fe = append(fe, nonNilEdges(f, e)...)
+			}
+		}
+		for _, r := range realReturns(f) {
+			for _, v := range retVals(r, 0) {
+				switch {
+				case isConstBool(v, true):
+					okp, path := mustPass(f, r, newCuts().addEdges(se))
+					c.verdict(c.fnKey(f)+":true", r.Pos(), okp && len(se) > 0, "true only after the marker was found", "isOpaque can answer true without having found the opaque marker: "+c.pathStr(f, path))
+				case isConstBool(v, false):
+					okp, path := mustPass(f, r, newCuts().addEdges(fe))
+					c.verdict(c.fnKey(f)+":false", r.Pos(), okp && len(fe) > 0, "false only after the lookup of the marker failed", "isOpaque can answer false without having looked the marker up: "+c.pathStr(f, path))
+				default:
+					// a memoised answer: every writer of the field stores the result of the marker lookup
+					good := false
+					if fa, ok := loadOfField(v); ok {
+						good = true
+						n := 0
+						for _, a := range c.fieldAccesses(typeQName(deref(fa.X.Type())), fieldName(fa), c.pkgFuncs(lp)) {
+							if !a.write {
+								continue
+							}
+							n++
+							st, ok := a.instr.(*ssa.Store)
+							if !ok || !opaqueLookupResult(st.Val, opqDir) {
+								good = false
+							}
+						}
+						good = good && n > 0
+					}
+					c.verdict(c.fnKey(f)+":memoised", r.Pos(), good, "memoised answer written only from the marker lookup", "isOpaque returns a remembered value that is not the result of looking up the opaque marker (e.g. derived from the listing, which never contains the marker)")
+				}
+			}
+		}
+	}
+
+	// ---------- C07.h ----------
+	c.clause("C07.h", "T9", "the state file's bytes and size are those of a state regenerated in the same call (fetched size and error are current)", 2)
+	for _, fn := range []string{"(*statFile).Read", "(*statFile).attr"} {
+		f := c.mustFn(lp, fn)
+		if f == nil {
+			continue
+		}
+		fresh := func(v ssa.Value) bool {
+			vals := append([]ssa.Value{v}, reachingVals(v)...)
+			vals = append(vals, phiLeaves(v)...)
+			okAll := false
+			for _, x := range vals {
+				x = stripConv(x)
+				if _, isPhi := x.(*ssa.Phi); isPhi {
+					continue
+				}
+				if p, isLoad := loadOf(x); isLoad {
+					if al, ok := p.(*ssa.Alloc); ok && !al.Heap && len(reachingVals(x)) > 0 {
+						continue // a local spilled to the stack: its reaching values are examined
+					}
+					return false
+				}
+				ex, ok := x.(*ssa.Extract)
+				if !ok {
+					return false
+				}
+				call, ok := ex.Tuple.(*ssa.Call)
+				if !ok || calleeID(call) != lp+".(*statFile).updateStatUnlocked" || call.Parent() != f {
+					return false
+				}
+				okAll = true
+			}
+			return okAll
+		}
+		n := 0
+		eachInstr(f, func(i ssa.Instruction) {
+			call, ok := i.(*ssa.Call)
+			if !ok {
+				return
+			}
+			if calleeID(call) == "bytes.NewReader" {
+				n++
+				c.verdict(c.fnKey(f)+":served-bytes", call.Pos(), fresh(call.Call.Args[0]), "bytes come from updateStatUnlocked of this call", "the state file serves bytes that were not regenerated in this call: fetched size and error can be stale")
+			}
+			if b, ok := call.Call.Value.(*ssa.Builtin); ok && b.Name() == "len" && strings.HasSuffix(call.Call.Args[0].Type().String(), "[]byte") {
+				n++
+				c.verdict(c.fnKey(f)+":reported-size", call.Pos(), fresh(call.Call.Args[0]), "size is the length of the state regenerated in this call", "the state file's size is not that of a state regenerated in this call")
+			}
+		})
+		if n == 0 {
+			c.unk(c.fnKey(f)+":state-bytes", f.Pos(), "no use of the regenerated state found")
+		}
+	}
+
+	// ---------- C07.i ----------
+	c.clause("C07.i", "T4", "the listing memo is published atomically: entsCached becomes true only in the critical section of entsMu that also stores the complete listing", 1)
+	for _, a := range c.fieldAccesses(lp+".node", "entsCached", c.pkgFuncs(lp)) {
+		if !a.write {
+			continue
+		}
+		st, ok := a.instr.(*ssa.Store)
+		if !ok {
+			c.unk(c.fnKey(a.fn)+":entsCached-write", a.instr.Pos(), "unrecognised write")
+			continue
+		}
+		if isConstBool(st.Val, false) {
+			c.okTrivial(c.fnKey(a.fn)+":entsCached=false", st.Pos(), "invalidating the memo is always safe")
+			continue
+		}
+		good := false
+		lk := addrKey(a.base) + ".entsMu"
+		held := c.locksAt(st)[lk] == lockW
+		for _, e := range c.fieldAccesses(lp+".node", "ents", []*ssa.Function{a.fn}) {
+			if e.write && addrKey(e.base) == addrKey(a.base) && sameRegion(c, a.fn, e.instr, st, lk) {
+				good = true
+			}
+		}
+		c.verdict(c.fnKey(a.fn)+":entsCached=true", st.Pos(), good && held, "flag and listing stored in one critical section", "entsCached is set in a critical section that does not store the listing: a concurrent Readdir/Lookup sees the memo as valid while it is still empty and answers ENOENT for existing names")
+	}
+}
+
+func loadOfField(v ssa.Value) (*ssa.FieldAddr, bool) {
+	p, ok := loadOf(stripConv(v))
+	if !ok {
+		return nil, false
+	}
+	fa, ok := p.(*ssa.FieldAddr)
+	return fa, ok
+}
+
+// opaqueLookupResult: v is `err == nil` of a GetChild(…, opaque marker) call, or the result of (*node).isOpaque.
+func opaqueLookupResult(v ssa.Value, opqDir string) bool {
+	v = stripConv(v)
+	if call, ok := v.(*ssa.Call); ok {
+		return strings.HasSuffix(calleeID(call), ".(*node).isOpaque")
+	}
+	b, ok := v.(*ssa.BinOp)
+	if !ok || b.Op != token.EQL || !isNilConst(b.Y) {
+		return false
+	}
+	ex, ok := stripConv(b.X).(*ssa.Extract)
+	if !ok {
+		return false
+	}
+	call, ok := ex.Tuple.(*ssa.Call)
+	if !ok || !call.Call.IsInvoke() || call.Call.Method.Name() != "GetChild" {
+		return false
+	}
+	s, ok := constString(call.Call.Args[1])
+	return ok && s == opqDir
 }
